@@ -1,3 +1,5 @@
+//go:build g_heavy
+
 package worlds
 
 // W-NODE: a node under test (node 0: real api, netstore, localstore, chunkinfo,
